@@ -41,6 +41,21 @@
 #define C16_ASAN 0
 #endif
 
+#if !C16_ASAN
+/* Linked with --wrap=malloc in the non-ASan stage: fresh heap memory reads 0xBE exactly as under ASan
+ * (malloc_fill_byte), so that a string libcoap leaves partly unwritten looks the same in every process and
+ * in both variants, and never happens to look like valid text. */
+void *__real_malloc(size_t n);
+void *__wrap_malloc(size_t n);
+void *
+__wrap_malloc(size_t n) {
+  void *p = __real_malloc(n);
+  if (p && n)
+    memset(p, 0xBE, n < 4096 ? n : 4096);
+  return p;
+}
+#endif
+
 /* ------------------------------------------------------------------------------------------ */
 /* printing                                                                                   */
 static const char *
@@ -109,7 +124,6 @@ static sigjmp_buf g_jb;
 static volatile sig_atomic_t g_probing;
 static volatile uintptr_t g_fault_pc, g_fault_off;
 static struct sigaction g_old_segv, g_old_bus;
-static char g_exe[512];
 
 static void
 on_fault(int sig, siginfo_t *si, void *ucv) {
@@ -148,8 +162,6 @@ guard_setup(void) {
   sigemptyset(&sa.sa_mask);
   sigaction(SIGSEGV, &sa, &g_old_segv);
   sigaction(SIGBUS, &sa, &g_old_bus);
-  ssize_t n = readlink("/proc/self/exe", g_exe, sizeof g_exe - 1);
-  g_exe[n > 0 ? n : 0] = 0;
 }
 
 /* innermost function (inlines resolved) at pc, as ASan's symbolizer would print it; "" if unknown */
@@ -164,7 +176,8 @@ symbolize(uintptr_t pc) {
     if (cache[i].pc == pc)
       return cache[i].name;
   char cmd[700], line[200] = "";
-  snprintf(cmd, sizeof cmd, "addr2line -f -i -e '%s' 0x%lx 2>/dev/null", g_exe, (unsigned long)pc);
+  /* through /proc/<pid>/exe: still readable when a concurrent build has already unlinked the executable */
+  snprintf(cmd, sizeof cmd, "addr2line -f -i -e /proc/%d/exe 0x%lx 2>/dev/null", (int)getpid(), (unsigned long)pc);
   FILE *p = popen(cmd, "r");
   if (p) {
     if (!fgets(line, sizeof line, p))
@@ -221,8 +234,13 @@ run_call(const char *api, call_fn fn, void *ctx, const uint8_t *src, size_t len)
     else
       snprintf(sig, sizeof sig, "overread:%s", api);
     vxp_count(31, 1);
+    char where[100];
+    if (fr[0])
+      snprintf(where, sizeof where, "%s", fr);
+    else
+      snprintf(where, sizeof where, "pc=0x%lx, not symbolized", (unsigned long)g_fault_pc);
     failx(sig, "%s(%s, len=%zu) reads input[len+%lu] (READ past the end of the exact-size input, in %s)", api,
-          show(src, len), len, (unsigned long)g_fault_off, fr[0] ? fr : "?");
+          show(src, len), len, (unsigned long)g_fault_off, where);
     if (!g_pending.set && len <= sizeof g_pending.in) {
       g_pending.set = 1;
       g_pending.fn = fn;
@@ -249,4 +267,1382 @@ case_end(void) {
     heap_run(g_pending.fn, g_pending.ctx, g_pending.in, g_pending.len); /* ASan aborts here */
   }
   g_pending.set = 0;
+}
+
+/* ------------------------------------------------------------------------------------------ */
+/* the libcoap calls under test, each with a self-contained result                             */
+static const char *const FN_SPLIT_URI = "coap_split_uri";
+static const char *const FN_SPLIT_PROXY = "coap_split_proxy_uri";
+static const char *const FN_SPLIT_PATH = "coap_split_path";
+static const char *const FN_PATH_OPTLIST = "coap_path_into_optlist";
+static const char *const FN_SPLIT_QUERY = "coap_split_query";
+static const char *const FN_QUERY_OPTLIST = "coap_query_into_optlist";
+static const char *const FN_URI_OPTLIST = "coap_uri_into_optlist";
+
+static coap_address_t g_dst; /* 192.0.2.1:5683 -- never spelled by any enumerated host */
+
+struct optrec {
+  uint16_t num;
+  uint16_t len;
+  uint8_t val[48];
+};
+#define MAXREC 40
+struct optres {
+  int n, overflow;
+  struct optrec o[MAXREC];
+};
+static void
+chain_to_optres(const coap_optlist_t *chain, struct optres *r) {
+  r->n = 0;
+  r->overflow = 0;
+  for (const coap_optlist_t *o = chain; o; o = o->next) {
+    if (r->n >= MAXREC || o->length > sizeof r->o[0].val) {
+      r->overflow = 1;
+      return;
+    }
+    r->o[r->n].num = o->number;
+    r->o[r->n].len = (uint16_t)o->length;
+    memcpy(r->o[r->n].val, o->data, o->length);
+    r->n++;
+  }
+}
+
+/* coap_split_uri / coap_split_proxy_uri (+ coap_uri_into_optlist on the result) */
+struct span {
+  size_t off, len;
+  int outside; /* the span does not lie inside the input */
+};
+struct ctx_uri {
+  int proxy, want_opts;
+  int rc, scheme;
+  unsigned port;
+  struct span host, path, query;
+  int opt_rc; /* -1 not called */
+  struct optres opts;
+};
+static void
+span_of(struct span *sp, const coap_str_const_t *s, const uint8_t *in, size_t len) {
+  sp->len = s->length;
+  sp->off = 0;
+  sp->outside = 0;
+  if (s->length == 0)
+    return;
+  if (!s->s || s->s < in || s->s > in + len || s->length > (size_t)(in + len - s->s))
+    sp->outside = 1;
+  else
+    sp->off = (size_t)(s->s - in);
+}
+static void
+call_uri(void *cv, const uint8_t *in, size_t len, int probe) {
+  struct ctx_uri *c = cv;
+  coap_uri_t uri;
+  coap_optlist_t *chain = NULL;
+  int orc = -1;
+  int rc = c->proxy ? coap_split_proxy_uri(in, len, &uri) : coap_split_uri(in, len, &uri);
+  if (rc == 0 && c->want_opts)
+    orc = coap_uri_into_optlist(&uri, &g_dst, &chain, 1);
+  if (!probe) {
+    c->rc = rc;
+    c->opt_rc = orc;
+    c->opts.n = 0;
+    c->opts.overflow = 0;
+    if (rc == 0) {
+      c->scheme = (int)uri.scheme;
+      c->port = uri.port;
+      span_of(&c->host, &uri.host, in, len);
+      span_of(&c->path, &uri.path, in, len);
+      span_of(&c->query, &uri.query, in, len);
+      chain_to_optres(chain, &c->opts);
+    }
+  }
+  coap_delete_optlist(chain);
+}
+
+/* coap_split_path / coap_split_query into an exact-size output buffer */
+struct ctx_split {
+  int query;
+  size_t size;
+  int ret;
+  size_t outlen;
+  int overrun; /* bytes behind the buffer changed (non-ASan builds; ASan aborts instead) */
+  uint8_t out[200];
+};
+#define CANARY 16
+static void
+call_split(void *cv, const uint8_t *in, size_t len, int probe) {
+  struct ctx_split *c = cv;
+  size_t size = c->size, bl = size;
+#if C16_ASAN
+  uint8_t *buf = malloc(size);
+#else
+  uint8_t *buf = malloc(size + CANARY);
+  memset(buf + size, 0xA5, CANARY);
+#endif
+  int r = c->query ? coap_split_query(in, len, buf, &bl) : coap_split_path(in, len, buf, &bl);
+  int overrun = 0;
+#if !C16_ASAN
+  for (int i = 0; i < CANARY; i++)
+    if (buf[size + i] != 0xA5)
+      overrun = 1;
+#endif
+  if (!probe) {
+    c->ret = r;
+    c->outlen = bl;
+    c->overrun = overrun;
+    size_t n = bl < size ? bl : size;
+    if (n > sizeof c->out)
+      n = sizeof c->out;
+    memcpy(c->out, buf, n);
+  }
+  free(buf);
+}
+
+/* coap_path_into_optlist / coap_query_into_optlist */
+struct ctx_optlist {
+  int query, prechain;
+  int ret;
+  struct optres res;
+};
+static void
+call_optlist(void *cv, const uint8_t *in, size_t len, int probe) {
+  struct ctx_optlist *c = cv;
+  coap_optlist_t *chain = NULL;
+  if (c->prechain) {
+    coap_insert_optlist(&chain, coap_new_optlist(COAP_OPTION_URI_HOST, 1, (const uint8_t *)"h"));
+    coap_insert_optlist(&chain, coap_new_optlist(COAP_OPTION_URI_PORT, 1, (const uint8_t *)"\x09"));
+  }
+  int r = c->query ? coap_query_into_optlist(in, len, COAP_OPTION_URI_QUERY, &chain)
+                   : coap_path_into_optlist(in, len, COAP_OPTION_URI_PATH, &chain);
+  if (!probe) {
+    c->ret = r;
+    chain_to_optres(chain, &c->res);
+  }
+  coap_delete_optlist(chain);
+}
+
+/* Option pseudo-headers written by coap_split_path/_query: delta 0, RFC 7252 3.1 length encoding.
+ * Own parser (not coap_opt_*).  Returns 0 when exactly `count` options fill out[0..outlen). */
+static int
+parse_split_output(const uint8_t *out, size_t outlen, int count, struct ref_seglist *g) {
+  size_t pos = 0;
+  g->n = 0;
+  for (int k = 0; k < count; k++) {
+    if (pos >= outlen || g->n >= REF_MAXSEG)
+      return -1;
+    uint8_t b = out[pos++];
+    size_t l = b & 15;
+    if ((b >> 4) != 0 || l == 15)
+      return -1;
+    if (l == 13) {
+      if (pos >= outlen)
+        return -1;
+      l = 13u + out[pos++];
+    } else if (l == 14) {
+      if (pos + 1 >= outlen)
+        return -1;
+      l = 269u + ((size_t)out[pos] << 8) + out[pos + 1];
+      pos += 2;
+    }
+    if (l > outlen - pos || l > REF_MAXSEGLEN)
+      return -1;
+    memcpy(g->seg[g->n], out + pos, l);
+    g->len[g->n++] = l;
+    pos += l;
+  }
+  return pos == outlen ? 0 : -1;
+}
+static size_t
+opt_bytes(size_t l) {
+  return l + (l < 13 ? 1 : l < 269 ? 2 : 3);
+}
+static int
+optres_to_list(const struct optres *r, int from, uint16_t num, struct ref_seglist *g) {
+  g->n = 0;
+  for (int i = from; i < r->n; i++) {
+    if (r->o[i].num != num || g->n >= REF_MAXSEG)
+      return -1;
+    memcpy(g->seg[g->n], r->o[i].val, r->o[i].len);
+    g->len[g->n++] = r->o[i].len;
+  }
+  return 0;
+}
+
+/* class of a mismatch between the reference list R and libcoap's list G */
+static const char *
+classify(int is_path, const struct ref_seglist *R, const struct ref_seglist *G, int last_raw_is_dot) {
+  if (is_path) {
+    for (int i = 0; i < G->n; i++)
+      if ((G->len[i] == 1 && G->seg[i][0] == '.') || (G->len[i] == 2 && G->seg[i][0] == '.' && G->seg[i][1] == '.'))
+        return "dot-segment-emitted";
+    if (last_raw_is_dot && R->n == G->n + 1 && R->len[R->n - 1] == 0) {
+      int same = 1;
+      for (int i = 0; i < G->n; i++)
+        if (G->len[i] != R->len[i] || memcmp(G->seg[i], R->seg[i], G->len[i]) != 0)
+          same = 0;
+      if (same)
+        return "trailing-dot-segment"; /* RFC 3986 5.2.4 2B/2C: "a/." and "a/b/.." end in "/" */
+    }
+  }
+  return "segments";
+}
+
+/* ------------------------------------------------------------------------------------------ */
+/* counters                                                                                   */
+enum {
+  K_A_VALID = 0, K_A_REJECT, K_A_Q_ACC, K_A_Q_REJ,
+  K_Q_FRAGMENT, K_Q_USERINFO, K_Q_IPLIT_DELIM, K_Q_IPLIT_BAD, K_Q_HOST, K_Q_PATH, K_Q_QUERY,
+  K_B_PATH_OK, K_B_PATH_BADPCT, K_B_QUERY_OK, K_B_QUERY_BADPCT, K_B_SPLIT_CALLS, K_B_URI_FRAGMENT, K_B_URI_OK,
+  K_C_LISTS, K_C_DOT_LISTS, K_C_COLL_PATH, K_C_COLL_QUERY, K_C_HASH_FALSE, K_C_CANDIDATES,
+  K_OVERREAD = 31
+};
+
+/* ------------------------------------------------------------------------------------------ */
+/* space a: coap_split_uri / coap_split_proxy_uri                                               */
+static const uint8_t SIG_U[13] = {'a', '.', '/', ':', '?', '#', '%', '2', 'e', '[', ']', '9', '@'};
+static const char *const PREFIX[8] = {"coap://", "coaps://", "coap+tcp://", "coap+ws://", "http://", "coapx://", "", "/"};
+
+static uint64_t
+count_strings(unsigned A, unsigned maxlen) {
+  uint64_t t = 0, c = 1;
+  for (unsigned l = 0; l <= maxlen; l++) {
+    t += c;
+    c *= A;
+  }
+  return t;
+}
+/* index -> string, shorter strings first (so that index i means the same string for every bound) */
+static size_t
+decode_string(uint64_t idx, const uint8_t *alpha, unsigned A, uint8_t *out) {
+  size_t L = 0;
+  uint64_t cnt = 1;
+  while (idx >= cnt) {
+    idx -= cnt;
+    cnt *= A;
+    L++;
+  }
+  for (size_t i = L; i-- > 0;) {
+    out[i] = alpha[idx % A];
+    idx /= A;
+  }
+  return L;
+}
+
+static int
+lib_scheme_of(int ref_scheme) {
+  switch (ref_scheme) {
+  case REF_COAP: return COAP_URI_SCHEME_COAP;
+  case REF_COAPS: return COAP_URI_SCHEME_COAPS;
+  case REF_COAP_TCP: return COAP_URI_SCHEME_COAP_TCP;
+  case REF_COAPS_TCP: return COAP_URI_SCHEME_COAPS_TCP;
+  case REF_COAP_WS: return COAP_URI_SCHEME_COAP_WS;
+  case REF_COAPS_WS: return COAP_URI_SCHEME_COAPS_WS;
+  case REF_HTTP: return COAP_URI_SCHEME_HTTP;
+  case REF_HTTPS: return COAP_URI_SCHEME_HTTPS;
+  }
+  return -1;
+}
+static int
+scheme_supported(int ref_scheme) { /* what this build of libcoap documents as available */
+  switch (ref_scheme) {
+  case REF_COAPS: return coap_dtls_is_supported();
+  case REF_COAP_TCP: return coap_tcp_is_supported();
+  case REF_COAPS_TCP: return coap_tls_is_supported();
+  case REF_COAP_WS: return coap_ws_is_supported();
+  case REF_COAPS_WS: return coap_wss_is_supported();
+  }
+  return 1;
+}
+
+struct verdict {
+  char cls[160]; /* "" = nothing to report */
+  char msg[420];
+};
+static void verdict_set(struct verdict *v, const char *cls, const char *fmt, ...) __attribute__((format(printf, 3, 4)));
+static void
+verdict_set(struct verdict *v, const char *cls, const char *fmt, ...) {
+  if (v->cls[0])
+    return; /* first finding of the call wins */
+  snprintf(v->cls, sizeof v->cls, "%s", cls);
+  va_list ap;
+  va_start(ap, fmt);
+  vsnprintf(v->msg, sizeof v->msg, fmt, ap);
+  va_end(ap);
+}
+
+static int
+span_is(const struct span *sp, const uint8_t *in, const uint8_t *want, size_t wn) {
+  return sp->len == wn && (wn == 0 || memcmp(in + sp->off, want, wn) == 0);
+}
+
+/* One of the two split functions on one input.  Returns 1 when reference and libcoap both accept. */
+static int
+judge_split(int proxy, const uint8_t *in, size_t n, struct verdict *v, uint64_t *digest) {
+  static struct ctx_uri cs[2];
+#define c (cs[proxy])
+  const char *fn = proxy ? FN_SPLIT_PROXY : FN_SPLIT_URI;
+  v->cls[0] = 0;
+  c.proxy = proxy;
+  c.want_opts = 1;
+  if (!run_call(fn, call_uri, &c, in, n))
+    return 0;
+  int lib_ok = c.rc == 0;
+
+  /* reference.  libcoap's documented contract for coap_split_uri(): a string that starts with '/' is an
+   * absolute path (+ query) without scheme, host or port -- the path-abempty [ "?" query ] tail of a coap
+   * URI; coap_split_proxy_uri() insists on an absolute URI. */
+  struct ref_uri ru;
+  uint8_t synth[64];
+  const uint8_t *rs = in;
+  int pathonly = 0;
+  uint32_t mask;
+  if (!proxy && n > 0 && in[0] == '/' && n + 8 <= sizeof synth) {
+    memcpy(synth, "coap://h", 8);
+    memcpy(synth + 8, in, n);
+    mask = ref_uri_split(synth, n + 8, 0, &ru);
+    rs = synth;
+    pathonly = 1;
+  } else
+    mask = ref_uri_split(in, n, proxy, &ru);
+  (void)rs;
+  if (!mask && !scheme_supported(ru.scheme))
+    mask = REF_R_SCHEME_UNKNOWN;
+
+  if (mask & REF_R_FORBIDDEN_COMPONENT || (!(mask & REF_R_STRUCTURAL) && (mask & REF_R_CHARLEVEL))) {
+    /* RFC-invalid in a way libcoap's documentation does not promise to detect at this stage (userinfo,
+     * fragment, delimiters inside [..], characters outside a component's ABNF): either outcome tolerated,
+     * counted per class and reported to the coordinator as questions. */
+    vxp_count(lib_ok ? K_A_Q_ACC : K_A_Q_REJ, 1);
+    if (lib_ok) {
+      int k = mask & REF_R_FRAGMENT      ? K_Q_FRAGMENT
+              : mask & REF_R_USERINFO    ? K_Q_USERINFO
+              : mask & REF_R_IPLIT_DELIM ? K_Q_IPLIT_DELIM
+              : mask & REF_R_IPLIT_BAD   ? K_Q_IPLIT_BAD
+              : mask & (REF_R_HOST_CHAR | REF_R_HOST_PCT) ? K_Q_HOST
+              : mask & (REF_R_PATH_CHAR | REF_R_PATH_PCT) ? K_Q_PATH
+                                                          : K_Q_QUERY;
+      vxp_count(k, 1);
+    }
+    return 0;
+  }
+  if (mask & REF_R_STRUCTURAL) {
+    vxp_count(K_A_REJECT, 1);
+    if (lib_ok) {
+      char cls[160];
+      snprintf(cls, sizeof cls, "uri-mismatch:%s:accept-malformed:%s", fn, ref_first_reason(mask & REF_R_STRUCTURAL));
+      verdict_set(v, cls, "%s(%s) returns 0 (host=%s port=%u), RFC 3986/7252: malformed (%s)", fn, show(in, n),
+                  c.host.outside ? "?" : show(in + c.host.off, c.host.len), c.port,
+                  ref_first_reason(mask & REF_R_STRUCTURAL));
+    }
+    return 0;
+  }
+  /* valid URI */
+  if (!lib_ok) {
+    char cls[160];
+    snprintf(cls, sizeof cls, "uri-mismatch:%s:reject-valid:%s-%s-%s", fn, ru.has_port ? "port" : "noport",
+             ru.path.n ? "path" : "nopath", ru.has_query ? "query" : "noquery");
+    verdict_set(v, cls, "%s(%s) returns %d, but it is a valid URI: host=%s port=%u path=%s query=%s", fn, show(in, n),
+                c.rc, show(ru.host.s, ru.host.n), ru.port, show(ru.path.s, ru.path.n),
+                ru.has_query ? show(ru.query.s, ru.query.n) : "-");
+    return 0;
+  }
+  vxp_count(K_A_VALID, 1);
+  char cls[160];
+  if (c.host.outside || c.path.outside || c.query.outside) {
+    snprintf(cls, sizeof cls, "uri-mismatch:%s:span-outside-input", fn);
+    verdict_set(v, cls, "%s(%s): a returned component does not lie inside the input", fn, show(in, n));
+    return 0;
+  }
+  if (c.scheme != lib_scheme_of(ru.scheme)) {
+    snprintf(cls, sizeof cls, "uri-mismatch:%s:scheme", fn);
+    verdict_set(v, cls, "%s(%s): scheme=%d, expected %d (%s)", fn, show(in, n), c.scheme, lib_scheme_of(ru.scheme),
+                ref_schemes[ru.scheme].name);
+  }
+  const uint8_t *wh = pathonly ? (const uint8_t *)"" : ru.host.s;
+  size_t whn = pathonly ? 0 : ru.host.n;
+  if (!span_is(&c.host, in, wh, whn)) {
+    snprintf(cls, sizeof cls, "uri-mismatch:%s:host", fn);
+    verdict_set(v, cls, "%s(%s): host=%s, expected %s", fn, show(in, n), show(in + c.host.off, c.host.len), show(wh, whn));
+  }
+  if (c.port != ru.port) {
+    snprintf(cls, sizeof cls, "uri-mismatch:%s:port", fn);
+    verdict_set(v, cls, "%s(%s): port=%u, expected %u (%s, default %u)", fn, show(in, n), c.port, ru.port,
+                ru.has_port ? "explicit" : "default", ref_schemes[ru.scheme].default_port);
+  }
+  /* libcoap's representation: path without the leading '/', empty query == no query */
+  const uint8_t *wp = ru.path.n ? ru.path.s + 1 : (const uint8_t *)"";
+  size_t wpn = ru.path.n ? ru.path.n - 1 : 0;
+  if (!span_is(&c.path, in, wp, wpn)) {
+    snprintf(cls, sizeof cls, "uri-mismatch:%s:path", fn);
+    verdict_set(v, cls, "%s(%s): path=%s, expected %s", fn, show(in, n), show(in + c.path.off, c.path.len), show(wp, wpn));
+  }
+  size_t wqn = ru.has_query ? ru.query.n : 0;
+  if (!span_is(&c.query, in, ru.query.s, wqn)) {
+    snprintf(cls, sizeof cls, "uri-mismatch:%s:query", fn);
+    verdict_set(v, cls, "%s(%s): query=%s, expected %s", fn, show(in, n), show(in + c.query.off, c.query.len),
+                show(ru.query.s, wqn));
+  }
+  /* RFC 7252 6.4 steps 5-7 through coap_uri_into_optlist(dst = 192.0.2.1): Uri-Host, Uri-Port */
+  if (!v->cls[0]) {
+    struct ref_optlist want;
+    if (c.opt_rc != 1 || c.opts.overflow) {
+      snprintf(cls, sizeof cls, "uri-mismatch:%s:reject-valid", FN_URI_OPTLIST);
+      verdict_set(v, cls, "%s after %s(%s) returns %d for a valid URI", FN_URI_OPTLIST, fn, show(in, n), c.opt_rc);
+    } else if (ref_uri_to_options(&ru, 0, &want) == 0) {
+      const struct optrec *gh = NULL, *gp = NULL;
+      const struct ref_opt *rh = NULL, *rp = NULL;
+      int gnh = 0, gnp = 0;
+      for (int i = 0; i < c.opts.n; i++) {
+        if (c.opts.o[i].num == COAP_OPTION_URI_HOST)
+          gh = &c.opts.o[i], gnh++;
+        if (c.opts.o[i].num == COAP_OPTION_URI_PORT)
+          gp = &c.opts.o[i], gnp++;
+      }
+      for (int i = 0; i < want.n; i++) {
+        if (want.o[i].num == REF_OPT_URI_HOST && !pathonly)
+          rh = &want.o[i];
+        if (want.o[i].num == REF_OPT_URI_PORT)
+          rp = &want.o[i];
+      }
+      if (gnh > 1 || !!gh != !!rh || (gh && (gh->len != rh->len || memcmp(gh->val, rh->val, rh->len) != 0))) {
+        snprintf(cls, sizeof cls, "uri-mismatch:%s:uri-host", FN_URI_OPTLIST);
+        verdict_set(v, cls, "%s(%s): Uri-Host %s, expected %s", FN_URI_OPTLIST, show(in, n),
+                    gh ? show(gh->val, gh->len) : "absent", rh ? show(rh->val, rh->len) : "absent");
+      }
+      if (gnp > 1 || !!gp != !!rp || (gp && (gp->len != rp->len || memcmp(gp->val, rp->val, rp->len) != 0))) {
+        snprintf(cls, sizeof cls, "uri-mismatch:%s:uri-port", FN_URI_OPTLIST);
+        verdict_set(v, cls, "%s(%s): Uri-Port %s, expected %s (scheme %s, port %u, default %u)", FN_URI_OPTLIST,
+                    show(in, n), gp ? show(gp->val, gp->len) : "absent", rp ? show(rp->val, rp->len) : "absent",
+                    ref_schemes[ru.scheme].name, ru.port, ref_schemes[ru.scheme].default_port);
+      }
+    }
+  }
+  if (digest) {
+    uint64_t h = vx_fnv(&c.scheme, sizeof c.scheme, VX_FNV0);
+    h = vx_fnv(&c.port, sizeof c.port, h);
+    h = vx_fnv(in + c.host.off, c.host.len, h);
+    h = vx_fnv("/", 1, h);
+    h = vx_fnv(in + c.path.off, c.path.len, h);
+    h = vx_fnv("?", 1, h);
+    h = vx_fnv(in + c.query.off, c.query.len, h);
+    *digest = h;
+  }
+  return 1;
+#undef c
+}
+
+/* both functions on one input; a finding shared by both (same code path) is filed once, under coap_split_uri */
+static void
+check_uri_input(const uint8_t *in, size_t n, uint64_t idx, const char *what) {
+  struct verdict v0, v1;
+  uint64_t d = 0;
+  int ok0 = judge_split(0, in, n, &v0, &d);
+  int ok1 = judge_split(1, in, n, &v1, NULL);
+  if (v0.cls[0])
+    failx(v0.cls, "%s", v0.msg);
+  if (v1.cls[0]) {
+    int dup = 0;
+    if (v0.cls[0]) {
+      const char *t0 = strchr(v0.cls + 13, ':'), *t1 = strchr(v1.cls + 13, ':'); /* behind "uri-mismatch:<fn>" */
+      dup = !strcmp(v0.cls, v1.cls) || (t0 && t1 && !strcmp(t0, t1));
+    }
+    if (!dup)
+      failx(v1.cls, "%s", v1.msg);
+  }
+  if (ok0)
+    vxp_distinct(d);
+  if (idx % 400009 == 0 || (ok0 && idx % 50021 == 0))
+    vxp_sample("%s idx=%llu %s -> coap_split_uri %s, coap_split_proxy_uri %s", what, (unsigned long long)idx, show(in, n),
+               ok0 ? "accepts as the reference does" : v0.cls[0] ? v0.cls : "rejects/tolerated as the reference says",
+               ok1 ? "accepts as the reference does" : v1.cls[0] ? v1.cls : "rejects/tolerated as the reference says");
+}
+
+struct space_a {
+  unsigned maxlen;
+  uint64_t total;
+  char name[64];
+};
+static void
+case_a(uint64_t idx, void *arg) {
+  (void)arg;
+  uint8_t in[40];
+  unsigned pi = (unsigned)(idx % 8);
+  size_t pl = strlen(PREFIX[pi]);
+  memcpy(in, PREFIX[pi], pl);
+  size_t tl = decode_string(idx / 8, SIG_U, 13, in + pl);
+  case_begin(tl <= 2);
+  check_uri_input(in, pl + tl, idx, "a");
+  case_end();
+}
+
+/* space a2: "coap://a:" zeros digits */
+static const char *const PORT_SPECIAL[] = {"65535", "65536", "99999", "100000", "655350", "4294967376" /* 2^32+80 */,
+                                           "18446744073709551696" /* 2^64+80 */, "99999999999999999999999",
+                                           "000000000000000000000080", "5683x", "56 83", "+80", "-1", "0x50"};
+#define PORT_N 70001u
+#define PORT_SPECIALS (sizeof PORT_SPECIAL / sizeof PORT_SPECIAL[0])
+static void
+case_a2(uint64_t idx, void *arg) {
+  (void)arg;
+  char in[80];
+  int n;
+  static const char *const sch[3] = {"coap://a:", "coaps+tcp://[::1]:", "coap+ws://a.a:"};
+  if (idx < 3ull * PORT_N)
+    n = snprintf(in, sizeof in, "%s%s%u%s", sch[idx % 3], idx % 3 == 1 ? "0" : idx % 3 == 2 ? "00" : "",
+                 (unsigned)(idx / 3), idx % 3 == 2 ? "/a" : "");
+  else
+    n = snprintf(in, sizeof in, "coap://a:%s", PORT_SPECIAL[idx - 3ull * PORT_N]);
+  case_begin(0);
+  check_uri_input((const uint8_t *)in, (size_t)n, idx, "a2");
+  case_end();
+}
+
+/* ------------------------------------------------------------------------------------------ */
+/* space b: path / query strings -> options                                                    */
+static const uint8_t SIG_P[16] = {'a', 'A', '/', '.', '%', '2', 'e', 'E', 'F', '&', '?', '#', '=', '~', 0x00, 0xC3};
+
+/* coap_split_path / coap_split_query for every output buffer size need+1 .. 0.
+ * ref_rc != 0: the reference rejects the input (malformed escape).  need: bytes a left-to-right
+ * implementation needs at its peak (>= bytes of the final list). */
+static void
+check_split_fn(const char *fn, int query, const uint8_t *s, size_t len, int ref_rc, const struct ref_seglist *R,
+               size_t need, int last_raw_is_dot) {
+  static struct ctx_split cq[2];
+  struct ctx_split *c = &cq[query];
+  char sig[160];
+  size_t maxsz = (ref_rc == 0 ? need : len + 1) + 1;
+  int small_flagged = 0;
+  c->query = query;
+  for (size_t size = maxsz + 1; size-- > 0;) {
+    c->size = size;
+    vxp_count(K_B_SPLIT_CALLS, 1);
+    if (!run_call(fn, call_split, c, s, len))
+      return; /* overread reported; smaller buffers repeat it */
+    if (c->overrun || c->outlen > size) {
+      snprintf(sig, sizeof sig, "uri-mismatch:%s:output-overrun", fn);
+      failx(sig, "%s(%s) with a %zu-byte buffer: %s", fn, show(s, len), size,
+            c->overrun ? "bytes behind the buffer were written" : "reports more bytes written than the buffer holds");
+      return;
+    }
+    if (ref_rc != 0) {
+      if (c->ret >= 0) {
+        snprintf(sig, sizeof sig, "uri-mismatch:%s:bad-percent-accepted", fn);
+        failx(sig, "%s(%s, buflen=%zu) returns %d (success) although a '%%' is not followed by two hex digits", fn,
+              show(s, len), size, c->ret);
+        return;
+      }
+      continue;
+    }
+    if (c->ret < 0) {
+      if (size >= need) {
+        snprintf(sig, sizeof sig, "uri-mismatch:%s:reject-valid", fn);
+        failx(sig, "%s(%s, buflen=%zu) returns %d, expected %s", fn, show(s, len), size, c->ret, show_list(R));
+        return;
+      }
+      continue; /* too small and said so */
+    }
+    struct ref_seglist G;
+    if (parse_split_output(c->out, c->outlen, c->ret, &G) != 0) {
+      snprintf(sig, sizeof sig, "uri-mismatch:%s:output-encoding", fn);
+      failx(sig, "%s(%s, buflen=%zu) returns %d with *buflen=%zu, but the buffer does not hold exactly that many options", fn,
+            show(s, len), size, c->ret, c->outlen);
+      return;
+    }
+    if (ref_seglist_equal_mod_empty(R, &G))
+      continue;
+    const char *cl = classify(!query, R, &G, last_raw_is_dot);
+    if (size < need && strcmp(cl, "trailing-dot-segment")) {
+      if (!small_flagged) {
+        snprintf(sig, sizeof sig, "uri-mismatch:%s:small-buffer-not-reported", fn);
+        failx(sig, "%s(%s) with buflen=%zu (needs %zu) returns %d = %s instead of an error; complete result is %s", fn,
+              show(s, len), size, need, c->ret, show_list(&G), show_list(R));
+        small_flagged = 1;
+      }
+      continue;
+    }
+    snprintf(sig, sizeof sig, "uri-mismatch:%s:%s", fn, cl);
+    failx(sig, "%s(%s, buflen=%zu) gives %s, RFC 3986/7252 6.4 gives %s", fn, show(s, len), size, show_list(&G), show_list(R));
+    if (strcmp(cl, "trailing-dot-segment"))
+      return;
+  }
+}
+
+static void
+check_optlist_fn(const char *fn, int query, int prechain, const uint8_t *s, size_t len, int ref_rc,
+                 const struct ref_seglist *R, int last_raw_is_dot) {
+  static struct ctx_optlist cq[4];
+  struct ctx_optlist *c = &cq[query * 2 + prechain];
+  char sig[160];
+  c->query = query;
+  c->prechain = prechain;
+  if (!run_call(fn, call_optlist, c, s, len))
+    return;
+  if (ref_rc != 0) {
+    if (c->ret != 0) {
+      snprintf(sig, sizeof sig, "uri-mismatch:%s:bad-percent-accepted", fn);
+      struct ref_seglist G;
+      optres_to_list(&c->res, prechain ? 2 : 0, query ? COAP_OPTION_URI_QUERY : COAP_OPTION_URI_PATH, &G);
+      failx(sig, "%s(%s) returns %d (success) with %s although a '%%' is not followed by two hex digits", fn, show(s, len),
+            c->ret, show_list(&G));
+    }
+    return;
+  }
+  if (c->ret != 1 || c->res.overflow) {
+    snprintf(sig, sizeof sig, "uri-mismatch:%s:reject-valid", fn);
+    failx(sig, "%s(%s) returns %d, expected %s", fn, show(s, len), c->ret, show_list(R));
+    return;
+  }
+  int from = 0;
+  if (prechain) {
+    if (c->res.n < 2 || c->res.o[0].num != COAP_OPTION_URI_HOST || c->res.o[0].len != 1 || c->res.o[0].val[0] != 'h' ||
+        c->res.o[1].num != COAP_OPTION_URI_PORT || c->res.o[1].len != 1 || c->res.o[1].val[0] != 9) {
+      snprintf(sig, sizeof sig, "uri-mismatch:%s:previous-options-changed", fn);
+      failx(sig, "%s(%s) on a chain that already holds [Uri-Host \"h\", Uri-Port 9]: the earlier options are gone/changed "
+            "(%d options left, first number %d)", fn, show(s, len), c->res.n, c->res.n ? c->res.o[0].num : -1);
+      return;
+    }
+    from = 2;
+  }
+  struct ref_seglist G;
+  if (optres_to_list(&c->res, from, query ? COAP_OPTION_URI_QUERY : COAP_OPTION_URI_PATH, &G) != 0) {
+    snprintf(sig, sizeof sig, "uri-mismatch:%s:option-number", fn);
+    failx(sig, "%s(%s) produced an option with a number other than the one asked for", fn, show(s, len));
+    return;
+  }
+  if (!ref_seglist_equal_mod_empty(R, &G)) {
+    snprintf(sig, sizeof sig, "uri-mismatch:%s:%s", fn, classify(!query, R, &G, last_raw_is_dot));
+    failx(sig, "%s(%s%s) gives %s, RFC 3986/7252 6.4 gives %s", fn, show(s, len), prechain ? ", chain not empty" : "",
+          show_list(&G), show_list(R));
+  }
+}
+
+/* reference view of a libcoap-style path string (no leading '/', may be followed by ?query / #fragment) */
+struct pathref {
+  int rc;
+  struct ref_seglist R;
+  size_t need;
+  int last_raw_is_dot, any_dot, cut;
+};
+static void
+path_reference(const uint8_t *s, size_t len, struct pathref *p) {
+  uint8_t rp[256];
+  size_t cut = 0;
+  while (cut < len && s[cut] != '?' && s[cut] != '#')
+    cut++;
+  p->cut = (int)cut;
+  rp[0] = '/';
+  memcpy(rp + 1, s, cut);
+  p->rc = ref_path_to_segments(rp, cut + 1, &p->R);
+  size_t final = 0, cur = 0, peak = 0, st[REF_MAXSEG + 1];
+  int sp = 0;
+  p->last_raw_is_dot = p->any_dot = 0;
+  if (p->rc == 0) {
+    for (int i = 0; i < p->R.n; i++)
+      final += opt_bytes(p->R.len[i]);
+    for (size_t i = 0; i <= cut;) {
+      size_t j = i;
+      while (j < cut && s[j] != '/')
+        j++;
+      int d = ref_segment_dots(s + i, j - i);
+      uint8_t tmp[REF_MAXSEGLEN * 3];
+      p->last_raw_is_dot = d > 0;
+      if (d > 0)
+        p->any_dot = 1;
+      if (d == 0 && sp < REF_MAXSEG) {
+        int m = ref_pct_decode(s + i, j - i, tmp, sizeof tmp);
+        st[sp] = opt_bytes(m < 0 ? 0 : (size_t)m);
+        cur += st[sp++];
+        if (cur > peak)
+          peak = cur;
+      } else if (d == 2 && sp > 0)
+        cur -= st[--sp];
+      i = j + 1;
+    }
+  }
+  p->need = peak > final ? peak : final;
+}
+
+static void
+check_uri_optlist(const uint8_t *s, size_t len, const struct pathref *prp) {
+  static struct ctx_uri c;
+  uint8_t full[64];
+  char sig[160];
+  memcpy(full, "coap://a:9/", 11);
+  memcpy(full + 11, s, len);
+  size_t n = 11 + len;
+  c.proxy = 0;
+  c.want_opts = 1;
+  if (!run_call(FN_URI_OPTLIST, call_uri, &c, full, n))
+    return;
+  if (memchr(s, '#', len)) { /* fragment: RFC 7252 6.4 step 4 says fail, libcoap documents nothing -> question */
+    vxp_count(K_B_URI_FRAGMENT, 1);
+    return;
+  }
+  struct ref_uri ru;
+  struct ref_optlist want;
+  uint32_t mask = ref_uri_split(full, n, 0, &ru);
+  int rejected = c.rc != 0 || c.opt_rc != 1;
+  if (mask & (REF_R_PATH_PCT | REF_R_QUERY_PCT)) {
+    if (!rejected) {
+      snprintf(sig, sizeof sig, "uri-mismatch:%s:bad-percent-accepted", FN_URI_OPTLIST);
+      failx(sig, "coap_split_uri + %s(%s) both succeed (%d options) although a '%%' is not followed by two hex digits",
+            FN_URI_OPTLIST, show(full, n), c.opts.n);
+    }
+    return;
+  }
+  if (mask & (REF_R_STRUCTURAL | REF_R_FORBIDDEN_COMPONENT) || ref_uri_to_options(&ru, 0, &want) != 0) {
+    failx("harness:c16:uri-optlist-reference", "reference cannot handle %s (mask %x)", show(full, n), mask);
+    return;
+  }
+  if (rejected || c.opts.overflow) {
+    snprintf(sig, sizeof sig, "uri-mismatch:%s:reject-valid", FN_URI_OPTLIST);
+    failx(sig, "%s: coap_split_uri=%d %s=%d for a valid URI", show(full, n), c.rc, FN_URI_OPTLIST, c.opt_rc);
+    return;
+  }
+  vxp_count(K_B_URI_OK, 1);
+  /* group both option lists by number (libcoap appends in the order host, port, path, query) */
+  struct ref_seglist G[4], R[4]; /* host, port, path, query */
+  static const uint16_t num[4] = {REF_OPT_URI_HOST, REF_OPT_URI_PORT, REF_OPT_URI_PATH, REF_OPT_URI_QUERY};
+  static const char *const nm[4] = {"uri-host", "uri-port", "uri-path", "uri-query"};
+  for (int k = 0; k < 4; k++)
+    G[k].n = R[k].n = 0;
+  for (int i = 0; i < c.opts.n; i++) {
+    int k;
+    for (k = 0; k < 4; k++)
+      if (c.opts.o[i].num == num[k])
+        break;
+    if (k == 4 || G[k].n >= REF_MAXSEG) {
+      snprintf(sig, sizeof sig, "uri-mismatch:%s:option-number", FN_URI_OPTLIST);
+      failx(sig, "%s(%s) produced option number %u", FN_URI_OPTLIST, show(full, n), c.opts.o[i].num);
+      return;
+    }
+    memcpy(G[k].seg[G[k].n], c.opts.o[i].val, c.opts.o[i].len);
+    G[k].len[G[k].n++] = c.opts.o[i].len;
+  }
+  for (int i = 0; i < want.n; i++) {
+    int k;
+    for (k = 0; k < 4; k++)
+      if (want.o[i].num == num[k])
+        break;
+    memcpy(R[k].seg[R[k].n], want.o[i].val, want.o[i].len);
+    R[k].len[R[k].n++] = want.o[i].len;
+  }
+  for (int k = 0; k < 4; k++) {
+    int same = k < 2 ? ref_seglist_equal(&R[k], &G[k]) : ref_seglist_equal_mod_empty(&R[k], &G[k]);
+    if (same)
+      continue;
+    if (k < 2)
+      snprintf(sig, sizeof sig, "uri-mismatch:%s:%s", FN_URI_OPTLIST, nm[k]);
+    else
+      snprintf(sig, sizeof sig, "uri-mismatch:%s:%s:%s", FN_URI_OPTLIST, nm[k],
+               classify(k == 2, &R[k], &G[k], k == 2 && prp->last_raw_is_dot));
+    failx(sig, "coap_split_uri + %s(%s, dst=192.0.2.1, create_port_host_opt=1): %s options %s, RFC 7252 6.4 gives %s",
+          FN_URI_OPTLIST, show(full, n), nm[k], show_list(&G[k]), show_list(&R[k]));
+    return;
+  }
+}
+
+struct space_b {
+  unsigned maxlen;
+  uint64_t total;
+  char name[64];
+};
+static void
+case_b(uint64_t idx, void *arg) {
+  (void)arg;
+  uint8_t s[16];
+  size_t len = decode_string(idx, SIG_P, 16, s);
+  case_begin(len <= 2);
+
+  struct pathref pr;
+  path_reference(s, len, &pr);
+  vxp_count(pr.rc == 0 ? K_B_PATH_OK : K_B_PATH_BADPCT, 1);
+  check_split_fn(FN_SPLIT_PATH, 0, s, len, pr.rc, &pr.R, pr.need, pr.last_raw_is_dot);
+  check_optlist_fn(FN_PATH_OPTLIST, 0, 0, s, len, pr.rc, &pr.R, pr.last_raw_is_dot);
+  check_optlist_fn(FN_PATH_OPTLIST, 0, 1, s, len, pr.rc, &pr.R, pr.last_raw_is_dot);
+
+  struct ref_seglist Q;
+  size_t qcut = 0, qneed = 0;
+  while (qcut < len && s[qcut] != '#')
+    qcut++;
+  int qrc = ref_query_to_segments(s, qcut, &Q);
+  if (qrc == 0)
+    for (int i = 0; i < Q.n; i++)
+      qneed += opt_bytes(Q.len[i]);
+  vxp_count(qrc == 0 ? K_B_QUERY_OK : K_B_QUERY_BADPCT, 1);
+  check_split_fn(FN_SPLIT_QUERY, 1, s, len, qrc, &Q, qneed, 0);
+  check_optlist_fn(FN_QUERY_OPTLIST, 1, 0, s, len, qrc, &Q, 0);
+  check_optlist_fn(FN_QUERY_OPTLIST, 1, 1, s, len, qrc, &Q, 0);
+
+  check_uri_optlist(s, len, &pr);
+
+  if (pr.rc == 0 && (pr.any_dot || memchr(s, '%', len)))
+    vxp_distinct(vx_fnv(s, len, VX_FNV0 ^ 0xb));
+  if (idx % 100003 == 0)
+    vxp_sample("b idx=%llu %s -> path %s (needs %zu bytes), query %s", (unsigned long long)idx, show(s, len),
+               pr.rc ? "rejected (bad escape)" : show_list(&pr.R), pr.need, qrc ? "rejected (bad escape)" : show_list(&Q));
+  case_end();
+}
+
+/* ------------------------------------------------------------------------------------------ */
+/* space c: segment lists -> PDU -> string -> options, and injectivity of list -> string         */
+static const uint8_t SIG_S2[11] = {'a', '/', '%', '&', '?', '#', '.', '=', 0x00, 0xFF, ' '};
+#define SEG_FULL (1u + 256u + 121u) /* "", every single byte, Sigma_s2 x Sigma_s2 */
+#define SEG_SMALL (1u + 11u + 121u) /* "", Sigma_s2, Sigma_s2 x Sigma_s2 */
+
+struct space_c {
+  int full3; /* third level over SEG_FULL (thorough/fast) or SEG_SMALL */
+  uint64_t n1, n2, n3, total;
+  char name[64], name_inj[64];
+  uint64_t *H[2]; /* shared: hash of the path / query string of list idx (0 = not computed) */
+  uint32_t *P[2]; /* shared: index of another list with the same hash, or NONE */
+};
+#define NONE 0xffffffffu
+
+static size_t
+seg_decode(int small, unsigned c, uint8_t *out) {
+  unsigned singles = small ? 11u : 256u;
+  if (c == 0)
+    return 0;
+  c--;
+  if (c < singles) {
+    out[0] = small ? SIG_S2[c] : (uint8_t)c;
+    return 1;
+  }
+  c -= singles;
+  out[0] = SIG_S2[c / 11];
+  out[1] = SIG_S2[c % 11];
+  return 2;
+}
+static void
+space_c_init(struct space_c *sp, int full3) {
+  uint64_t m3 = full3 ? SEG_FULL : SEG_SMALL;
+  sp->full3 = full3;
+  sp->n1 = SEG_FULL;
+  sp->n2 = (uint64_t)SEG_FULL * SEG_FULL;
+  sp->n3 = m3 * m3 * m3;
+  sp->total = 1 + sp->n1 + sp->n2 + sp->n3;
+  snprintf(sp->name, sizeof sp->name, "c:lists(<=2 x %u, 3 x %u)", SEG_FULL, (unsigned)m3);
+  snprintf(sp->name_inj, sizeof sp->name_inj, "c-inj:lists(<=2 x %u, 3 x %u)", SEG_FULL, (unsigned)m3);
+}
+static void
+list_decode(const struct space_c *sp, uint64_t idx, struct ref_seglist *l) {
+  l->n = 0;
+  if (idx == 0)
+    return;
+  idx -= 1;
+  if (idx < sp->n1) {
+    l->n = 1;
+    l->len[0] = seg_decode(0, (unsigned)idx, l->seg[0]);
+    return;
+  }
+  idx -= sp->n1;
+  if (idx < sp->n2) {
+    l->n = 2;
+    l->len[0] = seg_decode(0, (unsigned)(idx / SEG_FULL), l->seg[0]);
+    l->len[1] = seg_decode(0, (unsigned)(idx % SEG_FULL), l->seg[1]);
+    return;
+  }
+  idx -= sp->n2;
+  unsigned m = sp->full3 ? SEG_FULL : SEG_SMALL;
+  int small = !sp->full3;
+  l->n = 3;
+  l->len[2] = seg_decode(small, (unsigned)(idx % m), l->seg[2]);
+  idx /= m;
+  l->len[1] = seg_decode(small, (unsigned)(idx % m), l->seg[1]);
+  idx /= m;
+  l->len[0] = seg_decode(small, (unsigned)idx, l->seg[0]);
+}
+
+/* Real request PDU with the list as Uri-Path options and as Uri-Query options, through
+ * coap_get_uri_path() / coap_get_query().  Returns 0 on success; strings are copied out. */
+static int
+compose(const struct ref_seglist *l, uint8_t *ps, size_t *pn, uint8_t *qs, size_t *qn, size_t cap) {
+  coap_pdu_t *pdu = coap_pdu_init(COAP_MESSAGE_CON, COAP_REQUEST_CODE_GET, 0x1234, 256);
+  int rc = -1;
+  if (!pdu)
+    return -1;
+  for (int i = 0; i < l->n; i++)
+    if (!coap_add_option(pdu, COAP_OPTION_URI_PATH, l->len[i], l->seg[i]))
+      goto out;
+  for (int i = 0; i < l->n; i++)
+    if (!coap_add_option(pdu, COAP_OPTION_URI_QUERY, l->len[i], l->seg[i]))
+      goto out;
+  coap_string_t *p = coap_get_uri_path(pdu);
+  coap_string_t *q = coap_get_query(pdu); /* NULL = no / empty query */
+  if (p && p->length <= cap && (!q || q->length <= cap)) {
+    memcpy(ps, p->s, p->length);
+    *pn = p->length;
+    *qn = q ? q->length : 0;
+    if (q)
+      memcpy(qs, q->s, q->length);
+    rc = 0;
+  }
+  if (p)
+    coap_delete_string(p);
+  if (q)
+    coap_delete_string(q);
+out:
+  coap_delete_pdu(pdu);
+  return rc;
+}
+
+/* Diagnosis of a reconstructed string that does not lead back to its list(s): names the class in the
+ * roundtrip: / collision: signatures.  nlo / nhi: segment counts of the list(s) that produced s. */
+static const char *
+string_class(int query, const uint8_t *s, size_t n, int nlo, int nhi) {
+  uint8_t sep = query ? '&' : '/';
+  int nsep = 0;
+  for (size_t i = 0; i < n; i++)
+    if (s[i] == sep)
+      nsep++;
+  for (size_t i = 0; i < n; i++) {
+    uint8_t c = s[i];
+    int text = (c >= 'A' && c <= 'Z') || (c >= 'a' && c <= 'z') || (c >= '0' && c <= '9') || (c && strchr("-._~!$&'()*+,;=:@/?%", c));
+    if (!text)
+      return "unwritten-bytes"; /* raw byte no escaper emits: fresh heap memory (0xBE), part of the string never written */
+  }
+  if (nsep > (nlo > 0 ? nlo - 1 : 0))
+    return query ? "&" : "/"; /* a separator byte inside a segment was not escaped */
+  if (nsep < nhi - 1)
+    return "separator-missing";
+  for (size_t i = 0; i < n; i++)
+    if (s[i] == '%' && (n - i < 3 || !ref_is_hex(s[i + 1]) || !ref_is_hex(s[i + 2])))
+      return "%"; /* a literal '%' was not escaped */
+  return "other";
+}
+
+static int
+list_has_dot_segment(const struct ref_seglist *l) {
+  for (int i = 0; i < l->n; i++)
+    if ((l->len[i] == 1 && l->seg[i][0] == '.') || (l->len[i] == 2 && l->seg[i][0] == '.' && l->seg[i][1] == '.'))
+      return 1;
+  return 0;
+}
+
+/* string -> options through both (b) functions of one kind; must give back L ([""] == []) */
+static void
+roundtrip(int query, const struct ref_seglist *L, const uint8_t *s, size_t n) {
+  static struct ctx_split cs[2];
+  static struct ctx_optlist co[2];
+  char sig[160];
+  const char *kind = query ? "query" : "path";
+  struct ref_seglist G;
+  const char *fn = query ? FN_SPLIT_QUERY : FN_SPLIT_PATH;
+  cs[query].query = query;
+  cs[query].size = 64; /* 3 segments of <= 2 decoded bytes: 9 bytes suffice */
+  if (run_call(fn, call_split, &cs[query], s, n)) {
+    if (cs[query].ret < 0 || parse_split_output(cs[query].out, cs[query].outlen, cs[query].ret, &G) != 0 ||
+        !ref_seglist_equal_mod_empty(L, &G)) {
+      if (cs[query].ret < 0 || parse_split_output(cs[query].out, cs[query].outlen, cs[query].ret, &G) != 0)
+        G.n = 0;
+      snprintf(sig, sizeof sig, "roundtrip:%s:%s", kind, string_class(query, s, n, L->n, L->n));
+      failx(sig, "Uri-%s options %s -> %s %s -> %s returns %d = %s", query ? "Query" : "Path", show_list(L),
+            query ? "coap_get_query" : "coap_get_uri_path", show(s, n), fn, cs[query].ret, show_list(&G));
+    }
+  }
+  fn = query ? FN_QUERY_OPTLIST : FN_PATH_OPTLIST;
+  co[query].query = query;
+  co[query].prechain = 0;
+  if (run_call(fn, call_optlist, &co[query], s, n)) {
+    int bad = co[query].ret != 1 || co[query].res.overflow ||
+              optres_to_list(&co[query].res, 0, query ? COAP_OPTION_URI_QUERY : COAP_OPTION_URI_PATH, &G) != 0;
+    if (bad || !ref_seglist_equal_mod_empty(L, &G)) {
+      if (bad)
+        G.n = 0;
+      snprintf(sig, sizeof sig, "roundtrip:%s:%s", kind, string_class(query, s, n, L->n, L->n));
+      failx(sig, "Uri-%s options %s -> %s %s -> %s returns %d = %s", query ? "Query" : "Path", show_list(L),
+            query ? "coap_get_query" : "coap_get_uri_path", show(s, n), fn, co[query].ret, show_list(&G));
+    }
+  }
+}
+
+static uint64_t
+str_hash(const uint8_t *s, size_t n) {
+  uint64_t h = vx_fnv(s, n, VX_FNV0);
+  h ^= h >> 29; /* spread the top bits used for bucketing */
+  h *= 0xBF58476D1CE4E5B9ULL;
+  h ^= h >> 32;
+  return h ? h : 1;
+}
+
+static void
+case_c(uint64_t idx, void *arg) {
+  struct space_c *sp = arg;
+  struct ref_seglist L;
+  uint8_t ps[64], qs[64];
+  size_t pn = 0, qn = 0;
+  list_decode(sp, idx, &L);
+  case_begin(L.n <= 1);
+  vxp_count(K_C_LISTS, 1);
+  if (compose(&L, ps, &pn, qs, &qn, sizeof ps) != 0) {
+    failx("uri-mismatch:coap_get_uri_path:no-string", "no path/query string for the options %s", show_list(&L));
+    case_end();
+    return;
+  }
+  if (sp->H[0]) {
+    sp->H[0][idx] = str_hash(ps, pn);
+    sp->H[1][idx] = str_hash(qs, qn);
+  }
+  /* RFC 7252 5.10.1: a Uri-Path option MUST NOT be "." or "..": such lists have no URI to go back through */
+  if (list_has_dot_segment(&L))
+    vxp_count(K_C_DOT_LISTS, 1);
+  else
+    roundtrip(0, &L, ps, pn);
+  roundtrip(1, &L, qs, qn);
+  if (L.n <= 2)
+    vxp_distinct(vx_fnv(qs, qn, vx_fnv(ps, pn, VX_FNV0 ^ 0xc)));
+  if (idx % 1000003 == 0 || idx == 700)
+    vxp_sample("c idx=%llu options %s -> path %s query %s", (unsigned long long)idx, show_list(&L), show(ps, pn), show(qs, qn));
+  case_end();
+}
+
+/* exact check of one candidate pair (same 64-bit hash): same string, different lists? */
+static void
+verify_collision(struct space_c *sp, int query, uint64_t i, uint64_t j) {
+  struct ref_seglist A, B;
+  uint8_t s[2][2][64];
+  size_t n[2][2];
+  list_decode(sp, i, &A);
+  list_decode(sp, j, &B);
+  if (compose(&A, s[0][0], &n[0][0], s[0][1], &n[0][1], 64) != 0 || compose(&B, s[1][0], &n[1][0], s[1][1], &n[1][1], 64) != 0)
+    return;
+  if (n[0][query] != n[1][query] || memcmp(s[0][query], s[1][query], n[0][query]) != 0) {
+    vxp_count(K_C_HASH_FALSE, 1); /* 64-bit hash collision only */
+    return;
+  }
+  if (ref_seglist_equal_mod_empty(&A, &B))
+    return; /* [] and [""]: the identification the property states */
+  vxp_count(query ? K_C_COLL_QUERY : K_C_COLL_PATH, 1);
+  char sig[160];
+  snprintf(sig, sizeof sig, "collision:%s:%s", query ? "query" : "path",
+           string_class(query, s[0][query], n[0][query], A.n < B.n ? A.n : B.n, A.n > B.n ? A.n : B.n));
+  failx(sig, "Uri-%s option lists %s and %s both give the %s string %s (%s)", query ? "Query" : "Path", show_list(&A),
+        show_list(&B), query ? "query" : "lookup-key / path", show(s[0][query], n[0][query]),
+        query ? "coap_get_query" : "coap_get_uri_path");
+}
+
+static void
+case_c_inj(uint64_t idx, void *arg) {
+  struct space_c *sp = arg;
+  if (sp->P[0]) {
+    for (int k = 0; k < 2; k++)
+      if (sp->P[k][idx] != NONE) {
+        vxp_count(K_C_CANDIDATES, 1);
+        verify_collision(sp, k, idx, sp->P[k][idx]);
+      }
+    return;
+  }
+  /* replay without the tables: compare against every other list (slow, exact) */
+  struct ref_seglist A, B;
+  uint8_t as[2][64], bs[2][64];
+  size_t an[2], bn[2];
+  list_decode(sp, idx, &A);
+  if (compose(&A, as[0], &an[0], as[1], &an[1], 64) != 0)
+    return;
+  for (uint64_t j = 0; j < sp->total; j++) {
+    if (j == idx)
+      continue;
+    list_decode(sp, j, &B);
+    if (compose(&B, bs[0], &bn[0], bs[1], &bn[1], 64) != 0)
+      continue;
+    for (int k = 0; k < 2; k++)
+      if (an[k] == bn[k] && memcmp(as[k], bs[k], an[k]) == 0)
+        verify_collision(sp, k, idx, j);
+  }
+}
+
+/* second pass, between the two enumerations: P[k][i] = some other index with the same hash.
+ * 16 forked helpers, helper w owns the hashes whose top 4 bits are w; plain sort + scan. */
+struct hrec {
+  uint64_t h;
+  uint32_t idx;
+};
+static int
+hrec_cmp(const void *a, const void *b) {
+  const struct hrec *x = a, *y = b;
+  if (x->h != y->h)
+    return x->h < y->h ? -1 : 1;
+  return x->idx < y->idx ? -1 : x->idx > y->idx;
+}
+static void
+find_equal_hashes(struct space_c *sp) {
+  pid_t pids[16];
+  fflush(NULL);
+  for (int w = 0; w < 16; w++) {
+    pids[w] = fork();
+    if (pids[w] != 0)
+      continue;
+    for (int k = 0; k < 2; k++) {
+      size_t cnt = 0, cap = (size_t)(sp->total / 12) + 1024;
+      struct hrec *r = malloc(cap * sizeof *r);
+      for (uint64_t i = 0; i < sp->total; i++) {
+        uint64_t h = sp->H[k][i];
+        if (h == 0 || (int)(h >> 60) != w)
+          continue;
+        if (cnt == cap) {
+          cap *= 2;
+          r = realloc(r, cap * sizeof *r);
+        }
+        r[cnt].h = h;
+        r[cnt++].idx = (uint32_t)i;
+      }
+      qsort(r, cnt, sizeof *r, hrec_cmp);
+      for (size_t a = 0; a < cnt;) {
+        size_t b = a + 1;
+        while (b < cnt && r[b].h == r[a].h)
+          b++;
+        if (b - a > 1) {
+          sp->P[k][r[a].idx] = r[a + 1].idx; /* the lowest index reports too: it becomes the replay artefact */
+          for (size_t m = a + 1; m < b; m++)
+            sp->P[k][r[m].idx] = r[a].idx;
+        }
+        a = b;
+      }
+      free(r);
+    }
+    _exit(0);
+  }
+  for (int w = 0; w < 16; w++) {
+    int st;
+    while (waitpid(pids[w], &st, 0) < 0)
+      ;
+    if (!WIFEXITED(st) || WEXITSTATUS(st) != 0) {
+      fprintf(stderr, "c16: hash pass helper %d died\n", w);
+      exit(2);
+    }
+  }
+}
+
+/* ------------------------------------------------------------------------------------------ */
+/* C16_PROBE='string with \xHH escapes': show what libcoap and the reference do with one input  */
+static void
+probe_one(const char *esc) {
+  uint8_t s[100];
+  size_t n = 0;
+  for (const char *p = esc; *p && n < 60; p++) {
+    if (p[0] == '\\' && p[1] == 'x' && p[2] && p[3]) {
+      unsigned v;
+      sscanf(p + 2, "%2x", &v);
+      s[n++] = (uint8_t)v;
+      p += 3;
+    } else
+      s[n++] = (uint8_t)*p;
+  }
+  printf("input %s (%zu bytes)\n", show(s, n), n);
+  for (int proxy = 0; proxy < 2; proxy++) {
+    struct ctx_uri c = {.proxy = proxy, .want_opts = 1};
+    struct ref_uri ru;
+    heap_run(call_uri, &c, s, n);
+    uint32_t mask = ref_uri_split(s, n, proxy, &ru);
+    printf(" %s: rc=%d", proxy ? FN_SPLIT_PROXY : FN_SPLIT_URI, c.rc);
+    if (c.rc == 0) {
+      printf(" scheme=%d host=%s port=%u path=%s query=%s optlist_rc=%d opts=", c.scheme, show(s + c.host.off, c.host.len),
+             c.port, show(s + c.path.off, c.path.len), show(s + c.query.off, c.query.len), c.opt_rc);
+      for (int i = 0; i < c.opts.n; i++)
+        printf("%u:%s ", c.opts.o[i].num, show(c.opts.o[i].val, c.opts.o[i].len));
+    }
+    printf("\n   reference: ");
+    if (!mask)
+      printf("valid");
+    for (unsigned b = 0; b < 21; b++)
+      if (mask & (1u << b))
+        printf("%s ", ref_reason_name(1u << b));
+    if (ru.scheme >= 0 && ru.has_authority)
+      printf(" | host=%s port=%u path=%s query=%s", show(ru.host.s, ru.host.n), ru.port, show(ru.path.s, ru.path.n),
+             ru.has_query ? show(ru.query.s, ru.query.n) : "-");
+    printf("\n");
+  }
+  struct pathref pr;
+  path_reference(s, n, &pr);
+  printf(" as path : reference %s need=%zu\n", pr.rc ? "rejects" : show_list(&pr.R), pr.need);
+  for (int q = 0; q < 2; q++) {
+    struct ctx_split c = {.query = q, .size = 128};
+    struct ctx_optlist o = {.query = q};
+    struct ref_seglist G;
+    heap_run(call_split, &c, s, n);
+    if (c.ret < 0 || parse_split_output(c.out, c.outlen, c.ret, &G))
+      G.n = 0;
+    printf(" %s: ret=%d buflen=%zu %s\n", q ? FN_SPLIT_QUERY : FN_SPLIT_PATH, c.ret, c.outlen, show_list(&G));
+    heap_run(call_optlist, &o, s, n);
+    if (optres_to_list(&o.res, 0, q ? COAP_OPTION_URI_QUERY : COAP_OPTION_URI_PATH, &G))
+      G.n = 0;
+    printf(" %s: ret=%d %s\n", q ? FN_QUERY_OPTLIST : FN_PATH_OPTLIST, o.ret, show_list(&G));
+  }
+  struct ref_seglist Q;
+  int qrc = ref_query_to_segments(s, n, &Q);
+  printf(" as query: reference %s\n", qrc ? "rejects" : show_list(&Q));
+}
+
+/* ------------------------------------------------------------------------------------------ */
+static void *
+shared_alloc(size_t bytes, int fill) {
+  void *p = mmap(NULL, bytes ? bytes : 1, PROT_READ | PROT_WRITE, MAP_SHARED | MAP_ANONYMOUS, -1, 0);
+  if (p == MAP_FAILED) {
+    perror("mmap shared");
+    exit(2);
+  }
+  if (fill)
+    memset(p, fill, bytes);
+  return p;
+}
+
+int
+main(int argc, char **argv) {
+  vx_main_init(argc, argv, "C16");
+  coap_startup();
+  coap_set_log_level(COAP_LOG_EMERG);
+  guard_setup();
+  coap_address_init(&g_dst);
+  g_dst.size = sizeof(struct sockaddr_in);
+  g_dst.addr.sin.sin_family = AF_INET;
+  g_dst.addr.sin.sin_port = htons(5683);
+  g_dst.addr.sin.sin_addr.s_addr = htonl(0xC0000201u);
+
+  int st0 = ref_uri_selftest();
+  if (st0) {
+    fprintf(stderr, "VX-HARNESS: refuri self-test failed at vector %d\n", st0);
+    return 2;
+  }
+  if (getenv("C16_PROBE")) {
+    probe_one(getenv("C16_PROBE"));
+    return 0;
+  }
+
+#ifdef C16_BIG
+  const int big = 1;
+#else
+  const int big = 0;
+#endif
+  g_skip_heap_run = !C16_ASAN;
+  const int thorough = vx_is_thorough();
+
+  /* every space this executable may have produced a replay file for */
+  struct space_a sa[2];
+  struct space_b sb[3];
+  struct space_c sc[2];
+  for (int i = 0; i < 2; i++) {
+    sa[i].maxlen = 5 + (unsigned)i;
+    sa[i].total = 8 * count_strings(13, sa[i].maxlen);
+    snprintf(sa[i].name, sizeof sa[i].name, "a:split(prefix x Sigma_u^<=%u)", sa[i].maxlen);
+  }
+  for (int i = 0; i < 3; i++) {
+    sb[i].maxlen = 5 + (unsigned)i;
+    sb[i].total = count_strings(16, sb[i].maxlen);
+    snprintf(sb[i].name, sizeof sb[i].name, "b:path-query(Sigma_p^<=%u)", sb[i].maxlen);
+  }
+  for (int i = 0; i < 2; i++) {
+    space_c_init(&sc[i], i);
+    sc[i].H[0] = sc[i].H[1] = NULL;
+    sc[i].P[0] = sc[i].P[1] = NULL;
+  }
+  const char *name_a2 = "a2:ports";
+  for (int i = 0; i < 2; i++)
+    if (vxp_replay_if_match(sa[i].name, case_a, &sa[i]))
+      return 0;
+  if (vxp_replay_if_match(name_a2, case_a2, NULL))
+    return 0;
+  for (int i = 0; i < 3; i++)
+    if (vxp_replay_if_match(sb[i].name, case_b, &sb[i]))
+      return 0;
+  for (int i = 0; i < 2; i++) {
+    if (vxp_replay_if_match(sc[i].name, case_c, &sc[i]))
+      return 0;
+    if (vxp_replay_if_match(sc[i].name_inj, case_c_inj, &sc[i]))
+      return 0;
+  }
+
+  if (big && !thorough) {
+    vx_ev_rule("fast stage: thorough-only spaces (b: Sigma_p^<=7, c: 3 x 378 segments); nothing to do in quick");
+    return vx_finish();
+  }
+
+  struct vxp_stats st;
+  uint64_t evals = 0;
+  struct space_a *A = big ? NULL : &sa[thorough ? 1 : 0];
+  struct space_b *B = big ? &sb[2] : &sb[thorough ? 1 : 0];
+  struct space_c *C = big ? &sc[1] : &sc[0];
+
+  if (A) {
+    struct vxp_config c = {.space = A->name, .total = A->total};
+    vxp_enumerate(&c, case_a, A, &st);
+    evals += st.done;
+    struct vxp_config c2 = {.space = name_a2, .total = 3ull * PORT_N + PORT_SPECIALS};
+    vxp_enumerate(&c2, case_a2, NULL, &st);
+    evals += st.done;
+  }
+  /* the fast stage runs the cheap list space first so that a deadline can only cut the big string space */
+  for (int pass = 0; pass < 2; pass++) {
+    if ((pass == 0) == !big) {
+      struct vxp_config c = {.space = B->name, .total = B->total};
+      vxp_enumerate(&c, case_b, B, &st);
+      evals += st.done;
+      continue;
+    }
+    for (int k = 0; k < 2; k++) {
+      C->H[k] = shared_alloc(C->total * sizeof(uint64_t), 0);
+      C->P[k] = shared_alloc(C->total * sizeof(uint32_t), 0xff);
+    }
+    struct vxp_config c = {.space = C->name, .total = C->total};
+    vxp_enumerate(&c, case_c, C, &st);
+    evals += st.done;
+    if (vx_time_left() > 5) {
+      find_equal_hashes(C);
+      struct vxp_config ci = {.space = C->name_inj, .total = C->total, .chunk = 500000};
+      vxp_enumerate(&ci, case_c_inj, C, &st);
+    } else
+      vx_ev_not_exhaustive("c-inj: no time left for the injectivity pass");
+  }
+
+  vx_ev_add_states((long long)evals, (long long)evals, (long long)evals);
+  vx_ev_add_evals((long long)evals, (long long)vxp_distinct_count());
+  vx_ev_rule("every string / segment list of the bounded alphabets is run through the real libcoap functions on a guard-page "
+             "copy and on an exact-size malloc copy (ASan) and compared with ref/refuri.c (RFC 3986 3, 2.1, 5.2.4; RFC 7252 "
+             "6.4, 6.5). distinct_nontrivial counts: (a) distinct (scheme,host,port,path,query) results of valid URIs, (b) "
+             "inputs with a percent-escape or dot-segment that the reference accepts, (c) distinct (path,query) strings of "
+             "lists of <= 2 segments. Injectivity: hash of every reconstructed string in a shared table, sort, every pair of "
+             "equal hashes re-composed and compared byte for byte.");
+  vx_ev_assumption("representation differences normalised, not flagged: libcoap's path has no leading '/'; empty query == no "
+                   "query; a single empty segment == no segment; a string starting with '/' is path[?query] for "
+                   "coap_split_uri (documented) and invalid for coap_split_proxy_uri; coap_split_path/_query/.._into_optlist "
+                   "accept a trailing ?query / #fragment and ignore it");
+  vx_ev_assumption("RFC-invalid URIs that libcoap's documentation does not promise to reject in coap_split_uri (userinfo, "
+                   "fragment, '/', '?' or '#' inside [..], bytes outside a component's ABNF incl. non-IPv6 text in [..]) are "
+                   "tolerated either way and counted (a.question.*); structural errors (unknown/missing scheme, empty host, "
+                   "unterminated or empty [..], junk after ], non-numeric port, port > 65535) must be rejected");
+  vx_ev_assumption("too-small output buffer: libcoap's header says 'or -1 on error'; any non-negative return with an "
+                   "incomplete list is flagged (small-buffer-not-reported)");
+  vx_ev_assumption("segment lists containing a '.' or '..' Uri-Path option (forbidden by RFC 7252 5.10.1) are exempt from the "
+                   "path round trip, not from the injectivity check");
+#ifdef C16_BIG
+#define EV(k) "big." k
+#else
+#define EV(k) k
+#endif
+  vx_ev_int(EV("a.valid_accepted"), (long long)vxp_counter(K_A_VALID));
+  vx_ev_int(EV("a.malformed_checked"), (long long)vxp_counter(K_A_REJECT));
+  vx_ev_int(EV("a.question.accepted"), (long long)vxp_counter(K_A_Q_ACC));
+  vx_ev_int(EV("a.question.rejected"), (long long)vxp_counter(K_A_Q_REJ));
+  vx_ev_int(EV("a.question.accepted.fragment"), (long long)vxp_counter(K_Q_FRAGMENT));
+  vx_ev_int(EV("a.question.accepted.userinfo"), (long long)vxp_counter(K_Q_USERINFO));
+  vx_ev_int(EV("a.question.accepted.delimiter-inside-brackets"), (long long)vxp_counter(K_Q_IPLIT_DELIM));
+  vx_ev_int(EV("a.question.accepted.not-an-ipv6-address"), (long long)vxp_counter(K_Q_IPLIT_BAD));
+  vx_ev_int(EV("a.question.accepted.host-bytes"), (long long)vxp_counter(K_Q_HOST));
+  vx_ev_int(EV("a.question.accepted.path-bytes"), (long long)vxp_counter(K_Q_PATH));
+  vx_ev_int(EV("a.question.accepted.query-bytes"), (long long)vxp_counter(K_Q_QUERY));
+  vx_ev_int(EV("b.path.reference_accepts"), (long long)vxp_counter(K_B_PATH_OK));
+  vx_ev_int(EV("b.path.reference_rejects_bad_escape"), (long long)vxp_counter(K_B_PATH_BADPCT));
+  vx_ev_int(EV("b.query.reference_accepts"), (long long)vxp_counter(K_B_QUERY_OK));
+  vx_ev_int(EV("b.query.reference_rejects_bad_escape"), (long long)vxp_counter(K_B_QUERY_BADPCT));
+  vx_ev_int(EV("b.split_calls_over_buffer_sizes"), (long long)vxp_counter(K_B_SPLIT_CALLS));
+  vx_ev_int(EV("b.uri_into_optlist.compared"), (long long)vxp_counter(K_B_URI_OK));
+  vx_ev_int(EV("b.uri_into_optlist.skipped_fragment"), (long long)vxp_counter(K_B_URI_FRAGMENT));
+  vx_ev_int(EV("c.lists"), (long long)vxp_counter(K_C_LISTS));
+  vx_ev_int(EV("c.lists_with_dot_segment"), (long long)vxp_counter(K_C_DOT_LISTS));
+  vx_ev_int(EV("c.equal_hash_candidates"), (long long)vxp_counter(K_C_CANDIDATES));
+  vx_ev_int(EV("c.hash_only_collisions"), (long long)vxp_counter(K_C_HASH_FALSE));
+  vx_ev_int(EV("c.colliding_lists.path"), (long long)vxp_counter(K_C_COLL_PATH));
+  vx_ev_int(EV("c.colliding_lists.query"), (long long)vxp_counter(K_C_COLL_QUERY));
+  vx_ev_int(EV("overread_detections_on_guard_copy"), (long long)vxp_counter(K_OVERREAD));
+  vx_ev_int(EV("asan"), C16_ASAN);
+  return vx_finish();
 }
